@@ -15,14 +15,14 @@ def paramsOps : String → Option (List String → String)
         let sq := isqrtN x
         let y := clampY x13 sq (mulTrunc x13 by_)
         let z := clampZ sq y (mulTrunc y.toNat bz)
-        s!"{y} {z} {getK x} {xStar x y.toNat}"
+        s!"{y} {z} {fGetK x} {xStar x y.toNat}"
       | _ => "ERR:proto"
   -- params_dr_chk x alpha_bits maxx_ok -> y z c   (z = -2 when the range check rejects x)
   | "params_dr_chk" => some fun a => match natArgs a with
       | some [x, b, ok] =>
         let y := mulTrunc (irootN 3 x) b
         let z : Int := if ok = 0 then -2 else if y > 0 then (x : Int) / y else -1
-        s!"{y} {z} {getC y.toNat}"
+        s!"{y} {z} {fGetC y.toNat}"
       | _ => "ERR:proto"
   | _ => none
 
